@@ -85,6 +85,18 @@ func typed(v any) any {
 		m, _ = absval.Atoms(v).(map[string]any)
 	}
 	m["g"] = fmt.Sprintf("%T", v)
+	if m["t"] == "time" {
+		// a time.Time is more than its instant: the location is part of the value ("exactly"); zn/zo = zone name and
+		// offset (seconds east of UTC) at that instant
+		var tt time.Time
+		switch t := v.(type) {
+		case time.Time:
+			tt = t
+		case gen.Time:
+			tt = time.Time(t)
+		}
+		m["zn"], m["zo"] = tt.Zone()
+	}
 	if m["t"] == "flt" {
 		var f float64
 		switch t := v.(type) {
@@ -193,6 +205,9 @@ func fromTyped(v any) any {
 		} else {
 			t = absTime(m)
 		}
+		if zn, ok := m["zn"].(string); ok && !(zn == "UTC" && num(m["zo"]) == 0) {
+			t = t.In(time.FixedZone(zn, int(num(m["zo"]))))
+		}
 		if g == "gen.Time" {
 			return gen.Time(t)
 		}
@@ -255,8 +270,82 @@ func nodeAny(n gen.Node) any {
 	return n
 }
 
+// curOpt: the option set of the case being run ("opt" of the case line; keepOpt when none).
+var curOpt = keepOpt
+
+func i64If(x int64, out any) func(int64) (any, bool) {
+	return func(v int64) (any, bool) { return out, v == x }
+}
+
+// optSets: option sets that change what the copying operations return. Under every one of them the operation must
+// still leave its input alone and share nothing with it (Convert.tla, law B6).
+var optSets = map[string]func(o *ojg.Options){
+	"mongo":   func(o *ojg.Options) { c := ojg.MongoConverter; o.Converter = &c },
+	"rfc3339": func(o *ojg.Options) { c := ojg.TimeRFC3339Converter; o.Converter = &c },
+	"nano":    func(o *ojg.Options) { c := ojg.TimeNanoConverter; o.Converter = &c },
+	"intf":    func(o *ojg.Options) { o.Converter = &ojg.Converter{Int: []func(int64) (any, bool){i64If(7, "seven")}} },
+	"fltf": func(o *ojg.Options) {
+		o.Converter = &ojg.Converter{Float: []func(float64) (any, bool){func(v float64) (any, bool) { return "f", v == 1.5 }}}
+	},
+	"strf": func(o *ojg.Options) {
+		o.Converter = &ojg.Converter{String: []func(string) (any, bool){func(v string) (any, bool) { return int64(1), v == "x" }}}
+	},
+	"mapf":      func(o *ojg.Options) { o.Converter = &ojg.Converter{Map: []func(map[string]any) (any, bool){mapFn}} },
+	"arrf":      func(o *ojg.Options) { o.Converter = &ojg.Converter{Array: []func([]any) (any, bool){arrFn}} },
+	"mapf+arrf": func(o *ojg.Options) { o.Converter = &ojg.Converter{Map: []func(map[string]any) (any, bool){mapFn}, Array: []func([]any) (any, bool){arrFn}} },
+	"timef": func(o *ojg.Options) { // a Map function that builds a time (what MongoConverter does for $date)
+		o.Converter = &ojg.Converter{Map: []func(map[string]any) (any, bool){func(v map[string]any) (any, bool) {
+			if s, ok := v["@t"].(string); ok && len(v) == 1 {
+				if t, err := time.Parse(time.RFC3339, s); err == nil {
+					return t, true
+				}
+			}
+			return v, false
+		}}}
+	},
+	"allf": func(o *ojg.Options) {
+		o.Converter = &ojg.Converter{Int: []func(int64) (any, bool){i64If(7, "seven")},
+			Float:  []func(float64) (any, bool){func(v float64) (any, bool) { return "f", v == 1.5 }},
+			String: []func(string) (any, bool){func(v string) (any, bool) { return int64(1), v == "x" }},
+			Map:    []func(map[string]any) (any, bool){mapFn}, Array: []func([]any) (any, bool){arrFn}}
+	},
+	"omitnil":   func(o *ojg.Options) { o.OmitNil = true },
+	"omitempty": func(o *ojg.Options) { o.OmitEmpty = true },
+	"timefmt":   func(o *ojg.Options) { o.TimeFormat = time.RFC3339Nano },
+	"timemap":   func(o *ojg.Options) { o.TimeFormat = time.RFC3339Nano; o.TimeMap = true; o.CreateKey = "^" },
+	"timewrap":  func(o *ojg.Options) { o.TimeFormat = "nano"; o.TimeWrap = "@" },
+}
+
+func mapFn(v map[string]any) (any, bool) {
+	if _, ok := v["m"]; ok && len(v) == 1 {
+		return "M", true
+	}
+	return v, false
+}
+
+func arrFn(v []any) (any, bool) {
+	if len(v) == 1 && v[0] == "m" {
+		return "A", true
+	}
+	return v, false
+}
+
+func optFor(name string) *ojg.Options {
+	if name == "" || name == "none" {
+		return keepOpt
+	}
+	f := optSets[name]
+	if f == nil {
+		panic("unknown option set " + name)
+	}
+	o := *keepOpt
+	f(&o)
+	return &o
+}
+
 // applyOp runs one operation of the property on in.
 func applyOp(op string, in any) any {
+	keepOpt := curOpt
 	switch op {
 	case "alt.Generify":
 		return nodeAny(alt.Generify(in, keepOpt))
@@ -387,10 +476,19 @@ type convCase struct {
 	Tree any       `json:"tree"`
 	Muts []mutSpec `json:"muts"`
 	Text string    `json:"text"`
+	Opt  string    `json:"opt"`
+	// MaxMuts caps the experiments convexec chooses itself for an option case (0 = all)
+	MaxMuts int `json:"maxmuts"`
 }
 
 func convOne(c convCase) (out abs) {
-	out = abs{"ev": "conv", "op": c.Op, "pan": false, "muts": []any{}}
+	opt := c.Opt
+	if opt == "" {
+		opt = "none"
+	}
+	out = abs{"ev": "conv", "op": c.Op, "opt": opt, "pan": false, "muts": []any{}}
+	curOpt = optFor(opt)
+	defer func() { curOpt = keepOpt }()
 	defer func() {
 		if r := recover(); r != nil {
 			out["pan"] = true
@@ -414,6 +512,32 @@ func convOne(c convCase) (out abs) {
 		res = applyOp(c.Op, in)
 	}
 	out["res"] = typed(res)
+	if c.Op == "alt.Generify" && opt == "none" {
+		// Generify and GenAlter build the same gen tree (the one copies, the other reuses): logged for the twin law
+		out["twin"] = typed(applyOp("alt.GenAlter", fromTyped(c.Tree)))
+	}
+	if opt != "none" && len(c.Muts) == 0 && !inPlace[c.Op] {
+		// the option set changes the shape of the result: the experiments are every container of the real input and
+		// of the real result x every mutation kind
+		for _, side := range []string{"in", "res"} {
+			var paths [][]int
+			var kinds [][]string
+			contPaths(out[side].(abs), nil, &paths, &kinds)
+			for j, p := range paths {
+				for _, k := range kinds[j] {
+					c.Muts = append(c.Muts, mutSpec{Side: side, Path: p, Kind: k})
+				}
+			}
+		}
+		if n := len(c.Muts); c.MaxMuts > 0 && n > c.MaxMuts {
+			// an evenly spread sample (deterministic: the case replays with the same experiments)
+			pick := make([]mutSpec, 0, c.MaxMuts)
+			for j := 0; j < c.MaxMuts; j++ {
+				pick = append(pick, c.Muts[j*n/c.MaxMuts])
+			}
+			c.Muts = pick
+		}
+	}
 	if inPlace[c.Op] {
 		// the input of an in-place operation must not be looked at again: its memory now holds the
 		// other representation (gen.Array.Alter documents "no longer usable as the original type")
@@ -770,7 +894,17 @@ func (g *cgen) leaf() abs {
 	case 13:
 		return abs{"t": "str", "v": []string{"", "x", "a b", "null", "1", "q\"uote", "tab\there", "<a&b>"}[g.r.Intn(8)], "g": "string"}
 	case 14:
-		return abs{"t": "time", "sec": g.r.Intn(100000), "nsec": pick(0, 1, 999999999, 500), "g": "time.Time"}
+		tl := abs{"t": "time", "sec": g.r.Intn(100000), "nsec": pick(0, 1, 999999999, 500), "g": "time.Time"}
+		// every second time leaf lives in a zone other than UTC (the location is part of a time.Time)
+		switch g.r.Intn(6) {
+		case 0:
+			tl["zn"], tl["zo"] = "JST", 9*3600
+		case 1:
+			tl["zn"], tl["zo"] = "", -5*3600-1800
+		case 2:
+			tl["zn"], tl["zo"] = "ZERO", 0 // same offset as UTC, another location
+		}
+		return tl
 	case 15:
 		return abs{"t": "big", "text": []string{"123456789012345678901234567890", "1e400", "-0.00000000000000000000000000012345678901234567890"}[g.r.Intn(3)], "g": "json.Number"}
 	}
@@ -980,6 +1114,64 @@ func (g *cgen) stringText() string {
 	return b.String()
 }
 
+func tStr(v string) abs  { return abs{"t": "str", "v": v, "g": "string"} }
+func tI64(i int64) abs   { m := absval.Atoms(i).(map[string]any); m["g"] = "int64"; return m }
+func tArr(e ...any) abs  { return abs{"t": "arr", "g": "[]any", "v": e} }
+func tObj1(k string, v abs) abs {
+	return abs{"t": "obj", "g": "map[string]any", "k": []any{k}, "v": []any{v}}
+}
+func tObj(m map[string]any) abs { o := aObj(m); o["g"] = "map[string]any"; return o }
+
+// optMatches: for every option set the values it converts (they must sit at depth >= 2 to show a write into the
+// caller's containers: a Converter stores what a function returns into the parent).
+var optMatches = map[string][]abs{
+	"mongo": {tObj1("$oid", tStr("abc")), tObj1("$numberLong", tStr("12")), tObj1("$date", tStr("2021-01-02T03:04:05.000Z")),
+		tObj1("$numberDecimal", tStr("1.5"))},
+	"rfc3339":   {tStr("2021-01-02T03:04:05Z"), tStr("2021-01-02")},
+	"nano":      {tI64(946684800000000001)},
+	"intf":      {tI64(7)},
+	"fltf":      {abs{"t": "flt", "s": "1.5", "g": "float64"}},
+	"strf":      {tStr("x")},
+	"mapf":      {tObj1("m", tI64(1)), tObj1("m", tArr(tStr("m")))},
+	"arrf":      {tArr(tStr("m"))},
+	"mapf+arrf": {tObj1("m", tArr(tStr("m"))), tArr(tStr("m")), tArr(tObj1("m", tI64(1)))},
+	"timef":     {tObj1("@t", tStr("2021-01-02T03:04:05+09:00"))},
+	"allf":      {tArr(tI64(7), abs{"t": "flt", "s": "1.5", "g": "float64"}, tStr("x"), tObj1("m", tI64(1)), tArr(tStr("m")))},
+	"omitnil":   {abs{"t": "null", "g": "nil"}, tObj1("n", abs{"t": "null", "g": "nil"})},
+	"omitempty": {tArr(), tObj(map[string]any{}), tStr(""), tObj1("e", tArr())},
+	"timefmt":   {abs{"t": "time", "sec": 5, "nsec": 7, "g": "time.Time", "zn": "JST", "zo": 9 * 3600}},
+	"timemap":   {abs{"t": "time", "sec": 5, "nsec": 7, "g": "time.Time"}},
+	"timewrap":  {abs{"t": "time", "sec": 5, "nsec": 7, "g": "time.Time", "zn": "JST", "zo": 9 * 3600}},
+}
+
+// optBlock: every option set x every value it converts x nesting contexts (depth 0..3, arrays and maps) x the copying
+// entry points that take options; emitted on every run. The mutation experiments are chosen by convexec from the real
+// input and result (every container x every kind).
+func optBlock(enc *json.Encoder) {
+	ctxs := []func(v abs) abs{
+		func(v abs) abs { return v },
+		func(v abs) abs { return tArr(v) },
+		func(v abs) abs { return tObj1("a", tArr(v)) },
+		func(v abs) abs { return tArr(tObj(map[string]any{"k1": v, "z": tI64(3)})) },
+		func(v abs) abs { return tObj1("a", tObj1("b", tArr(tI64(0), v))) },
+		func(v abs) abs { return tArr(tArr(v, tObj1("c", v))) },
+	}
+	names := make([]string, 0, len(optMatches))
+	for k := range optMatches {
+		names = append(names, k)
+	}
+	sort.Strings(names)
+	for _, name := range names {
+		for _, v := range optMatches[name] {
+			for _, cx := range ctxs {
+				for _, op := range []string{"alt.Decompose", "alt.Dup"} {
+					enc.Encode(abs{"ev": "conv", "op": op, "opt": name, "tree": cx(v), "muts": []any{}})
+				}
+			}
+		}
+	}
+}
+
 func convRand(args []string) {
 	fs := flag.NewFlagSet("convrand", flag.ExitOnError)
 	n := fs.Int("n", 1000, "number of random conversion cases (the same number of writer and parser cases is added)")
@@ -990,8 +1182,22 @@ func convRand(args []string) {
 	defer w.Flush()
 	enc := json.NewEncoder(w)
 	enc.SetEscapeHTML(false)
+	optBlock(enc)
+	optNames := make([]string, 0, len(optSets))
+	for k := range optSets {
+		optNames = append(optNames, k)
+	}
+	sort.Strings(optNames)
 	for i := 0; i < *n; i++ {
 		tr := g.tree(1 + g.r.Intn(3))
+		if i%10 == 3 {
+			// a random tree under a random option set, with one of the values the set converts somewhere inside
+			name := optNames[g.r.Intn(len(optNames))]
+			ms := optMatches[name]
+			tr = tArr(tr, tObj1("in", tArr(ms[g.r.Intn(len(ms))], g.tree(1))))
+			enc.Encode(abs{"ev": "conv", "op": []string{"alt.Decompose", "alt.Dup"}[g.r.Intn(2)], "opt": name, "tree": tr, "muts": []any{}, "maxmuts": 8})
+			continue
+		}
 		var op string
 		if g.r.Intn(4) == 0 {
 			op = genOps[g.r.Intn(len(genOps))]
